@@ -160,12 +160,28 @@ func init() {
 			if !IsNum(x) {
 				return nil, ierr("implode needs code points")
 			}
+			if b, isBig := norm(x).(*big.Int); isBig && b != nil {
+				sb.WriteRune(utf8.RuneError) // far outside the code space
+				continue
+			}
+			if f, isF := norm(x).(float64); isF && (math.IsNaN(f) || math.IsInf(f, 0) || math.Abs(f) > 1<<40) {
+				if math.IsNaN(f) {
+					return nil, unsup("implode of NaN")
+				}
+				sb.WriteRune(utf8.RuneError)
+				continue
+			}
 			i, ok, err := idxInt(x)
 			if err != nil || !ok {
-				return nil, unsup("implode of a non-integral or huge code point")
+				return nil, unsup("implode of a non-integral code point")
 			}
-			if i < 0 || i > utf8.MaxRune || (0xD800 <= i && i <= 0xDFFF) {
-				return nil, unsup("implode of an invalid code point (jq versions differ: error or U+FFFD)")
+			if 0xD800 <= i && i <= 0xDFFF {
+				return nil, unsup("implode of a surrogate code point")
+			}
+			if i < 0 || i > utf8.MaxRune {
+				// outside the code space: the replacement character (pinned by the corpus for -1 and 1114112)
+				sb.WriteRune(utf8.RuneError)
+				continue
 			}
 			if f, isF := norm(x).(float64); isF && f != math.Trunc(f) {
 				return nil, unsup("implode of a fractional code point")
